@@ -109,7 +109,7 @@ def run_case(cs):
     # the product location class x invocation form x listing order is sampled (a seeded change may need two of them together)
     variants = []
     for _ in range(rng.randint(3, 5)):
-        loc = rng.choice(["plain", "asc-parent", "pattern-parent", "deep", "unicode-parent", "symlink-parent"])
+        loc = rng.choice(["plain", "asc-parent", "pattern-parent", "deep", "unicode-parent", "symlink-parent", "bracket-parent"])
         form = rng.choice(["abs", "abs", "slash", "rel-root", "rel-dot-slash", "rel-dot"])
         lst = rng.choice(["sorted", "permuted"])
         if (loc, form, lst) == ("plain", "abs", "sorted"):
@@ -130,6 +130,8 @@ def run_case(cs):
             os.makedirs(os.path.join(d, "v%d" % vi, "real volume"))
             os.symlink(os.path.join(d, "v%d" % vi, "real volume"), os.path.join(d, "v%d" % vi, "mnt"))
             root = os.path.join(d, "v%d" % vi, "mnt", "root")
+        elif loc == "bracket-parent":
+            root = os.path.join(d, "v%d" % vi, rng.choice(["Reel [A001]", "[abc]", "Day [1-3] {x,y}", "what?*"]), "root")
         elif loc == "deep":
             root = os.path.join(d, "v%d" % vi, "a", "b b", "c", "d", "root")
         elif loc == "unicode-parent":
@@ -190,7 +192,7 @@ def run_case(cs):
                 break
         shutil.rmtree(os.path.join(d, "v%d" % vi), ignore_errors=True)
     # ---- relocated sealed copies verify with exit 0
-    for vi, parent in enumerate(rng.sample(["moved", "ascmhl", "mount.tmp", "x y/z", "ü"], 2)):
+    for vi, parent in enumerate(rng.sample(["moved", "ascmhl", "mount.tmp", "x y/z", "ü", "Reel [A001]", "[abc]"], 2)):
         dst = os.path.join(d, "r%d" % vi, parent, "root")
         os.makedirs(os.path.dirname(dst))
         shutil.copytree(base_root, dst, symlinks=True)
